@@ -30,6 +30,12 @@ impl Framed {
         }
     }
 
+    /// Verification hook (off by default): length and capacity of the internal receive buffer.
+    #[cfg(feature = "verif-hooks")]
+    pub fn verif_buffer_state(&self) -> (usize, usize) {
+        (self.buffer.len(), self.buffer.capacity())
+    }
+
     /// Modifies whether or not to verify the Insim version
     pub fn verify_version(&mut self, verify_version: bool) {
         self.verify_version = verify_version;
